@@ -114,7 +114,7 @@ class Client(threading.Thread):
         return "nothing"
 
 
-def run_shutdown(wk, sig, phases, appfin="within", graceful=3, bind="tcp", slack_ms=2500, pre=(), timeout=60):
+def run_shutdown(wk, sig, phases, appfin="within", graceful=3, bind="tcp", slack_ms=2500, pre=(), timeout=60, server_args=()):
     """-> (trace, meta).  pre: signals sent to the master (0.6 s apart) after the clients are in their phase and
     before the final signal, e.g. ("TTIN", "TTOU") retires the busy worker first"""
     nworkers = len(phases) if wk == "sync" else 1
@@ -122,7 +122,7 @@ def run_shutdown(wk, sig, phases, appfin="within", graceful=3, bind="tcp", slack
     # "tcp2": a second listener that stays idle while the clients use the first one
     extra = ["-b", "127.0.0.1:%d" % rp.free_port()] if bind == "tcp2" else []
     s = rp.Server(wk, workers=nworkers, threads=threads, bind="tcp" if bind == "tcp2" else bind, pidfile=True,
-                  args=["--graceful-timeout", str(graceful), "--keep-alive", "5", "--timeout", str(timeout)] + extra, name="c04")
+                  args=["--graceful-timeout", str(graceful), "--keep-alive", "5", "--timeout", str(timeout)] + extra + list(server_args), name="c04")
     try:
         s.start()
         wpids = s.wait_booted(nworkers)
@@ -185,7 +185,44 @@ def run_shutdown(wk, sig, phases, appfin="within", graceful=3, bind="tcp", slack
         ev.append(after)
         tr = {"sig": sig, "graceful_ms": graceful * 1000, "slack_ms": slack_ms, "wk": wk, "ev": ev}
         return tr, {"wk": wk, "sig": sig, "phases": phases, "appfin": appfin, "bind": bind, "elapsed_ms": elapsed,
-                    "pre": list(pre), "log": s.errlog()[-600:]}
+                    "pre": list(pre), "server_args": list(server_args), "log": s.errlog()[-600:]}
+    finally:
+        s.cleanup()
+
+
+def run_boot_stop(wk, sig, graceful=8):
+    """the stop signal reaches the master while its workers are still importing a slow application (no preload)"""
+    import subprocess
+    s = rp.Server(wk, workers=2, threads=2 if wk == "gthread" else None, pidfile=True,
+                  args=["--graceful-timeout", str(graceful), "--timeout", "60"], env={"VERIF_BOOT_SLEEP": "4"}, name="c04boot")
+    try:
+        p = subprocess.Popen(s.cmd, cwd=rp.REPO, env=s.env, stdout=subprocess.DEVNULL, stderr=subprocess.DEVNULL)
+        deadline = time.time() + 10
+        while time.time() < deadline and len(rp.children_of(p.pid)) < 2:
+            time.sleep(0.02)
+        wpids = rp.children_of(p.pid)
+        time.sleep(1.0)                      # the workers are inside the application import now
+        t0 = time.time()
+        os.kill(p.pid, {"TERM": signal.SIGTERM, "INT": signal.SIGINT, "QUIT": signal.SIGQUIT}[sig])
+        try:
+            status = p.wait(graceful + 12)
+        except subprocess.TimeoutExpired:
+            status = None
+        elapsed = int((time.time() - t0) * 1000)
+        time.sleep(0.25)
+        survivors = [x for x in wpids if rp.proc_state(x) not in (None, "Z")]
+        for x in survivors:
+            try:
+                os.kill(x, signal.SIGKILL)
+            except OSError:
+                pass
+        if status is None:
+            p.kill()
+        ev = [{"e": "exit", "status": -1 if status is None else status, "elapsed_ms": elapsed},
+              {"e": "after", "workers": len(survivors), "listening": False, "pidfile": os.path.exists(s.pidfile), "sockfile": False}]
+        tr = {"sig": sig, "graceful_ms": graceful * 1000, "slack_ms": 2500, "wk": wk, "ev": ev}
+        return tr, {"wk": wk, "sig": sig, "phases": ["booting"], "appfin": "import", "bind": "tcp", "elapsed_ms": elapsed,
+                    "pre": [], "log": s.errlog()[-400:]}
     finally:
         s.cleanup()
 
@@ -199,7 +236,10 @@ def plan_for(ctx):
                 ("sync", "TERM", ["app_running"], "overrun", "tcp", ("TTIN", "TTOU")),
                 ("gevent", "TERM", ["app_running", "resp_partial"], "within", "tcp2"),
                 ("sync", "TERM", ["app_running"], "within", "unix", ("USR2", "TERMNEW")),
-                ("gthread", "TERM", ["app_running", "resp_partial"], "late", "tcp", (), 6, 2)]
+                ("gthread", "TERM", ["app_running", "resp_partial"], "late", "tcp", (), 6, 2),
+                # every worker binds its own SO_REUSEPORT socket: the master has no listener of its own
+                ("sync", "TERM", ["app_running"], "within", "tcp", (), 3, 60, ("--reuse-port",)),
+                ("gthread", "QUIT", ["app_running"], "never", "tcp", (), 3, 60, ("--reuse-port",))]
     plan = []
     for wk in ("sync", "gthread", "gevent", "eventlet"):
         for bind in ("tcp", "unix"):
@@ -215,6 +255,8 @@ def plan_for(ctx):
         plan.append((wk, "TERM", ["app_running"], "within", "unix", ("USR2", "TERMNEW")))
         plan.append((wk, "QUIT", ["idle"], "within", "unix", ("USR2", "TERMNEW")))
         plan.append((wk, "TERM", ["app_running", "resp_partial"], "late", "tcp", (), 6, 2))
+        plan.append((wk, "TERM", ["app_running", "idle"], "within", "tcp", (), 3, 60, ("--reuse-port",)))
+        plan.append((wk, "INT", ["app_running"], "never", "tcp", (), 3, 60, ("--reuse-port",)))
     return plan
 
 
@@ -228,11 +270,13 @@ def worker_side(ctx):
         pre = plan[i][5] if len(plan[i]) > 5 else ()
         graceful = plan[i][6] if len(plan[i]) > 6 else 3
         timeout = plan[i][7] if len(plan[i]) > 7 else 60
+        sargs = plan[i][8] if len(plan[i]) > 8 else ()
         try:
-            results[i] = run_shutdown(wk, sig, phases, appfin, graceful=graceful, bind=bind, pre=pre, timeout=timeout)
+            results[i] = run_shutdown(wk, sig, phases, appfin, graceful=graceful, bind=bind, pre=pre, timeout=timeout,
+                                      server_args=sargs)
         except Exception as e:   # noqa
             results[i] = e
-    par = 7
+    par = 9
     for base in range(0, len(plan), par):
         ths = [threading.Thread(target=runner, args=(i,)) for i in range(base, min(base + par, len(plan)))]
         [t.start() for t in ths]
@@ -243,6 +287,13 @@ def worker_side(ctx):
             raise r
         traces.append(r[0])
         metas.append(r[1])
+    # stop signals while the workers are still booting
+    from props.reload_real import _parallel
+    bplan = [("sync", "QUIT"), ("gthread", "INT")] if ctx.quick else \
+        [(wk, sg) for wk in ("sync", "gthread", "gevent", "eventlet") for sg in ("QUIT", "INT", "TERM")]
+    for t, m in _parallel(bplan, lambda a, i: run_boot_stop(a[0], a[1]), par=6):
+        traces.append(t)
+        metas.append(m)
     verdicts, stats = tlc.validate_batch("ShutdownTrace", "ShutdownTrace.cfg", traces, name="ShutdownTrace_C04")
     ctx.add_traces(len(traces), stats)
     ctx.coverage["real_process_shutdowns"] = len(traces)
